@@ -1239,8 +1239,11 @@ def replay(payload):
     req, outs, names, insts, toklist = execute(case['decls'], case['ops'])
     oracle(r, case['decls'], case['ops'], outs, names, insts, toklist, dict(case))
     want = payload.get('sig')
-    hits = [v for v in r.violations if want is None or v['sig'] == want] or r.violations
+    known = common.load_known_all()
+    hits = [v for v in r.violations if want is not None and v['sig'] == want] or \
+        [v for v in r.violations if not any(common.matches(f, PROP, v['sig']) for f in known)]
     if hits:
         return False, 'property C12 FAILS on this history: ' + json.dumps(hits[0]['sig']) + ' ' + \
             json.dumps(hits[0]['observed'])[:600]
-    return True, 'property C12 holds on this history (%d ops)' % len(case['ops'])
+    return True, 'property C12 holds on this history (%d ops; %d occurrences of open known findings ignored)' % (
+        len(case['ops']), len(r.violations))
